@@ -14,6 +14,9 @@ from gen import H, O
 from vlib import run_driver_parallel, coq_eval, warm_config, trace_to_coq, unhex
 from props.C14 import split, diff, canon_path, RES
 
+# the case files of this check import the monitors: keep them compiled against the current generated constants
+COQ_TARGETS = ("theories/Replay.vo", "theories/Discipline.vo", "theories/FdBalance.vo", "proofs/MonitorProofs.vo")
+
 
 def deep_tree(rng):
     """deep/wide subtree 'v' with links to siblings, parents and outside"""
